@@ -133,12 +133,15 @@ var c10Keys = map[string]c10Key{
 	"pkcs1-symlink":     {file: "LINK:rsa_unprotected.priv", pub: "rsa_unprotected.pub", apk: true},
 	"pkcs1":             {file: "rsa_unprotected.priv", pub: "rsa_unprotected.pub", apk: true},
 	// the private key followed by its public key in one file (as `openssl genrsa; openssl rsa -pubout >>` leaves it)
-	"pkcs1-then-public":     {file: "CONCAT:rsa_unprotected.priv+rsa_unprotected.pub", pub: "rsa_unprotected.pub", apk: true},
-	"pkcs8":                 {file: "rsa_pkcs8.priv", pub: "rsa_pkcs8.pub", apk: true},
-	"pkcs8-4096":            {file: "rsa4096.priv", pub: "rsa4096.pub", apk: true},
-	"encrypted-pem":         {file: "rsa.priv", pub: "rsa.pub", givePass: "hunter2", passVar: "FORMAT", apk: true},
-	"encrypted-pem-general": {file: "rsa.priv", pub: "rsa.pub", givePass: "hunter2", passVar: "NFPM_PASSPHRASE", apk: true},
-	"encrypted-pem-wrong":   {file: "rsa.priv", pub: "rsa.pub", givePass: "nope", passVar: "FORMAT", apk: true, wantFail: true},
+	// an unprotected RSA key while a passphrase is set anyway (the general variable, meant for another format's key)
+	"pkcs1-with-passphrase":        {file: "rsa_unprotected.priv", pub: "rsa_unprotected.pub", givePass: "hunter2", passVar: "NFPM_PASSPHRASE", apk: true},
+	"pkcs1-with-format-passphrase": {file: "rsa_unprotected.priv", pub: "rsa_unprotected.pub", givePass: "irrelevant", passVar: "FORMAT", apk: true},
+	"pkcs1-then-public":            {file: "CONCAT:rsa_unprotected.priv+rsa_unprotected.pub", pub: "rsa_unprotected.pub", apk: true},
+	"pkcs8":                        {file: "rsa_pkcs8.priv", pub: "rsa_pkcs8.pub", apk: true},
+	"pkcs8-4096":                   {file: "rsa4096.priv", pub: "rsa4096.pub", apk: true},
+	"encrypted-pem":                {file: "rsa.priv", pub: "rsa.pub", givePass: "hunter2", passVar: "FORMAT", apk: true},
+	"encrypted-pem-general":        {file: "rsa.priv", pub: "rsa.pub", givePass: "hunter2", passVar: "NFPM_PASSPHRASE", apk: true},
+	"encrypted-pem-wrong":          {file: "rsa.priv", pub: "rsa.pub", givePass: "nope", passVar: "FORMAT", apk: true, wantFail: true},
 	// an encrypted PEM key whose passphrase begins and ends with a blank (generated at run time from the unprotected key)
 	"encrypted-pem-padded-pass": {file: "GENPEM: hunter2 ", pub: "rsa_unprotected.pub", givePass: " hunter2 ", passVar: "FORMAT", apk: true},
 	// a passphrase that looks like it held references (it is a value, not a template)
@@ -147,7 +150,7 @@ var c10Keys = map[string]c10Key{
 }
 
 var c10PGPKeys = []string{"expired-subkey", "armored-symlink", "protected-symlink", "subkey-only-with-passphrase", "armored-with-passphrase", "binary-with-passphrase", "armored-leading-blank", "armored-leading-text", "armored-crlf", "armored-trailing-text", "keyid-decimal", "decimal-no-keyid", "armored", "binary", "protected", "protected-binary", "subkey-only", "keyid-primary", "keyid-subkey", "keyid-primary-upper", "keyid-subkey-mixed", "wrong-passphrase", "no-passphrase", "multiple-keys", "keyid-invalid", "keyid-garbage-prefix", "keyid-garbage-suffix", "keyid-too-long", "key-missing"}
-var c10APKKeys = []string{"pkcs1-then-public", "pkcs1-symlink", "encrypted-pem-dollar-pass", "encrypted-pem-padded-pass", "pkcs1", "pkcs8", "pkcs8-4096", "encrypted-pem", "encrypted-pem-general", "encrypted-pem-wrong", "pem-garbage"}
+var c10APKKeys = []string{"pkcs1-with-passphrase", "pkcs1-with-format-passphrase", "pkcs1-then-public", "pkcs1-symlink", "encrypted-pem-dollar-pass", "encrypted-pem-padded-pass", "pkcs1", "pkcs8", "pkcs8-4096", "encrypted-pem", "encrypted-pem-general", "encrypted-pem-wrong", "pem-garbage"}
 
 // c10Payloads is the number of payload shapes (0 = empty).
 const c10Payloads = 7
@@ -214,7 +217,8 @@ func init() {
 				}
 			}
 			// dpkg-sig takes any role name as type (builder is its default)
-			for _, st := range []string{"builder", "origin", "maint", "archive", "custom"} {
+			// (a role of twelve characters makes a member name that exactly fills the 16 bytes of an ar header)
+			for _, st := range []string{"builder", "origin", "maint", "archive", "custom", "buildmachine", "qa"} {
 				if !yield(C10Case{Format: "deb", Method: "dpkg-sig", Key: "armored", Payload: 1, Via: "file", SigType: st, FailJ: -1}) {
 					return
 				}
